@@ -224,5 +224,36 @@ pub fn run(cfg: &Cfg, rep: &mut Rep) {
             gen::rand_reading(&mut r, s, &lats[si])
         };
         check(rep, &w, c, s, k % 4 == 0);
+        if k % 16 == 0 {
+            // an epoch held in one scale whose reading in the scale of one of the *other* renderings ({:?} UTC, {:x} TAI,
+            // {:X} TT, {:e} TDB, {:E} ET, to_gregorian_str(GPST | BDT)) is a whole second, a whole minute or a midnight:
+            // the renderings have a separate branch for a zero sub-second, reached from another scale only by such inputs
+            let s2 = *r.pick(&[TimeScale::UTC, TimeScale::TAI, TimeScale::TT, TimeScale::TDB, TimeScale::ET, TimeScale::GPST, TimeScale::BDT]);
+            let (lo, hi) = gen::reading_range(s2, if k % 32 == 0 { -400 } else { 1600 }, 2400);
+            let q = match r.below(3) {
+                0 => NS_S,
+                1 => NS_MIN,
+                _ => NS_D,
+            };
+            let r2 = (r.range_i128(lo, hi) / q) * q - if q == NS_D { greg_zero_ns(s2).rem_euclid(NS_D) } else { 0 };
+            let t = w.to_tai(r2, s2);
+            let src = loop {
+                let x = crate::gen::rand_scale(&mut r);
+                if x != s2 {
+                    break x;
+                }
+            };
+            if let Some(c0) = w.from_tai(t, src) {
+                rep.class("render/whole-second-in-other-scale");
+                if is_dyn(s2) || is_dyn(src) {
+                    // the model only knows the dynamical reading to a few ns: try the neighbours too
+                    for dk in -3i128..=3 {
+                        check(rep, &w, c0 + dk, src, true);
+                    }
+                } else {
+                    check(rep, &w, c0, src, true);
+                }
+            }
+        }
     }
 }
